@@ -41,7 +41,9 @@ TraceInit == /\ tid \in 1..Len(Traces)
              /\ PathInit(Len(Traces[tid].verts), Traces[tid].closed)
 
 \* the piece `ev` draws edge e = EdgeOf(first, last) of the transformed object
+\* model "affine": an affine chart of the projective plane (DrawProj), every edge is straight
 PieceOK(ev) ==
+  IF Tr.model = "affine" THEN ev.kind = "straight" ELSE
   LET e == EdgeOf(ev.first, ev.last)
       x == TrV(e)
       y == TrV(Nxt(e))
